@@ -238,7 +238,9 @@ def abs_err(e):
     """abstract form of an error object (what the model's `to_dict` consumes)"""
     from py_gql.exc import GraphQLSyntaxError, ResolverError, GraphQLLocatedError, ExecutionError
     if isinstance(e, GraphQLSyntaxError):
-        return {"cls": "syntax", "msg": O.clean(str(e)), "pos": e.position}
+        # the position `to_dict` renders (a clamped one if the L6 fix of the lexer engineer is in)
+        pos = e._render_position() if hasattr(e, "_render_position") else e.position
+        return {"cls": "syntax", "msg": O.clean(str(e)), "pos": pos}
     if isinstance(e, GraphQLLocatedError):
         d = {"cls": "resolver" if isinstance(e, ResolverError) else "located", "msg": O.clean(str(e)),
              "nodes": [(n.loc[0] if (n.loc and n.source) else None) for n in e.nodes],
@@ -318,34 +320,50 @@ def ty_json(t):
     return {"k": "named", "n": t.name}
 
 
-def outcome_tree(world, schema):
-    """typed outcome tree of the root selection, from the calls recorded by the world (blocking order)"""
+def outcome_tree(world, schema, data):
+    """
+    typed outcome tree of the root selection, from the calls recorded by the world (blocking order).
+    Fields the world does not resolve (`__typename` and the other introspection fields) are taken
+    from `data` (the wire-encoded real result) as opaque leaves at their place in key order.
+    """
     from py_gql.schema import ListType, NonNullType, ObjectType, InterfaceType, UnionType
-    by_parent = {}
+    by_path = {path: (path, ftype, nodes, o) for path, ftype, nodes, o in world.calls}
+    order = {}
     for path, ftype, nodes, o in world.calls:
-        by_parent.setdefault(path[:-1], []).append((path, ftype, nodes, o))
+        order.setdefault(path[:-1], []).append(path[-1])
 
-    def fields(parent):
+    def fields(parent, dv):
+        keys = list(dv.keys()) if isinstance(dv, dict) else order.get(parent, [])
         out = []
-        for path, ftype, nodes, o in by_parent.get(parent, []):
+        for k in keys:
+            c = by_path.get(parent + (k,))
+            if c is None:
+                out.append({"key": k, "ty": {"k": "named", "n": "<introspection>"}, "nodes": [],
+                            "o": {"k": "leaf", "v": dv[k]} if dv[k] is not None else {"k": "null"}})
+                continue
+            path, ftype, nodes, o = c
+            sub = dv.get(k) if isinstance(dv, dict) else None
             if o[0] == "raised":
                 node = {"k": "raised", "msg": O.clean(o[1]), "ext": O.enc(o[2]) if o[2] is not None else None}
             else:
-                node = value(ftype, o[1], path)
-            out.append({"key": path[-1], "ty": ty_json(ftype), "nodes": nodes, "o": node})
+                node = value(ftype, o[1], path, sub)
+            out.append({"key": k, "ty": ty_json(ftype), "nodes": nodes, "o": node})
         return out
 
-    def value(t, v, path):
+    def value(t, v, path, dv):
         if isinstance(t, NonNullType):
-            return value(t.type, v, path)
+            return value(t.type, v, path, dv)
         if v is None:
             return {"k": "null"}
         if isinstance(t, ListType):
-            return {"k": "list", "items": [value(t.type, x, path + (i,)) for i, x in enumerate(v)]}
+            return {"k": "list", "items": [value(t.type, x, path + (i,), dv[i] if isinstance(dv, list) and i < len(dv) else None)
+                                          for i, x in enumerate(v)]}
         if isinstance(t, (ObjectType, InterfaceType, UnionType)):
-            return {"k": "obj", "fields": fields(path)}
-        return {"k": "leaf", "v": O.enc(t.serialize(v))}
-    return fields(())
+            return {"k": "obj", "fields": fields(path, dv)}
+        from py_gql.schema import EnumType
+        sv = t.get_name(v) if isinstance(t, EnumType) else t.serialize(v)
+        return {"k": "leaf", "v": O.enc(sv)} if sv is not None else {"k": "null"}
+    return fields((), data)
 
 
 def expected_sites(world, data, coercion_paths):
@@ -514,7 +532,7 @@ def check_case(ctx, case, pending):
         pending.append(({"op": "process", "stages": stages, "real": real}, on_answer))
         if failed is None and world is not None and cfg == "blocking":
             world_s.calls = calls_blocking
-            tree = outcome_tree(world_s, sync_schema)
+            tree = outcome_tree(world_s, sync_schema, stages["exec"]["data"])
             raised_paths = {tuple(p) for p, _t, _n, o in calls_blocking if o[0] == "raised"}
             real_errs = []
             for e in res.errors:
@@ -524,7 +542,10 @@ def check_case(ctx, case, pending):
                 real_errs.append(a)
             real_exec = {"data": O.enc(res.data), "errors": real_errs}
 
-            def on_exec(ans, real_exec=real_exec, detail=detail, tree=tree):
+            def on_exec(ans, real_exec=real_exec, detail=detail, tree=tree, raised_paths=raised_paths):
+                for a in ((ans.get("exec") or {}).get("errors") or []):
+                    if tuple(a.get("path") or ()) not in raised_paths:
+                        a["msg"] = "<nonnull>"      # wording of the library's own message is not compared
                 if ans.get("exec") != real_exec:
                     ctx.fail("corr:executor-error-capture", "model of resolve_field/complete_value/_handle_non_nullable_value differs from the real executor",
                              dict(detail, model=ans, real=real_exec, tree=tree), kind="correspondence")
